@@ -142,18 +142,41 @@ func genFib(g *common.Gen, r *common.Rand) {
 		used = append(used, n)
 		return n
 	}
+	type nf struct {
+		n enc.Name
+		f int
+	}
+	var hops []nf    // (name, face) pairs inserted so far (approximation: removals are not tracked exactly)
+	var strats []enc.Name
 	for k, nops := 0, r.Range(10, 50); k < nops; k++ {
 		n := draw()
 		switch x := r.Intn(100); {
 		case x < 35:
-			g.Op("fins %s %d %d", common.NameText(n), r.Range(1, 3), r.Range(0, 20))
+			f := r.Range(1, 3)
+			g.Op("fins %s %d %d", common.NameText(n), f, r.Range(0, 20))
+			hops = append(hops, nf{n, f})
 		case x < 65:
-			g.Op("frem %s %d", common.NameText(n), r.Range(1, 3))
+			f := r.Range(1, 3)
+			if len(hops) > 0 && r.Chance(4, 5) {
+				i := r.Intn(len(hops))
+				n, f = hops[i].n, hops[i].f
+				hops = append(hops[:i], hops[i+1:]...)
+			}
+			g.Op("frem %s %d", common.NameText(n), f)
 		case x < 75:
+			if len(hops) > 0 && r.Chance(2, 3) {
+				n = common.Pick(r, hops).n
+			}
 			g.Op("fclr %s", common.NameText(n))
-		case x < 88:
+		case x < 87:
 			g.Op("fset %s", common.NameText(n))
+			strats = append(strats, n)
 		default:
+			if len(strats) > 0 && r.Chance(4, 5) {
+				i := r.Intn(len(strats))
+				n = strats[i]
+				strats = append(strats[:i], strats[i+1:]...)
+			}
 			if len(n) == 0 {
 				continue // the root strategy cannot be unset (guarded by management, F-05b)
 			}
@@ -180,13 +203,26 @@ func genRib(g *common.Gen, r *common.Rand) {
 		used = append(used, n)
 		return n
 	}
+	type rt struct {
+		n    enc.Name
+		f, o int
+	}
+	var routes []rt
 	for k, nops := 0, r.Range(10, 40); k < nops; k++ {
 		n := draw()
 		switch x := r.Intn(100); {
 		case x < 45:
-			g.Op("radd %s %d %d %d %d", common.NameText(n), r.Range(1, 3), common.Pick(r, []int{0, 65}), r.Range(0, 20), r.Range(0, 3))
+			f, o := r.Range(1, 3), common.Pick(r, []int{0, 65})
+			g.Op("radd %s %d %d %d %d", common.NameText(n), f, o, r.Range(0, 20), r.Range(0, 3))
+			routes = append(routes, rt{n, f, o})
 		case x < 88:
-			g.Op("rrem %s %d %d", common.NameText(n), r.Range(1, 3), common.Pick(r, []int{0, 65}))
+			f, o := r.Range(1, 3), common.Pick(r, []int{0, 65})
+			if len(routes) > 0 && r.Chance(4, 5) {
+				i := r.Intn(len(routes))
+				n, f, o = routes[i].n, routes[i].f, routes[i].o
+				routes = append(routes[:i], routes[i+1:]...)
+			}
+			g.Op("rrem %s %d %d", common.NameText(n), f, o)
 		default:
 			g.Op("rface %d", r.Range(1, 3))
 		}
